@@ -75,8 +75,10 @@ class C09(Prop):
     assumptions = ["SHA-256 collision freedom and HMAC unforgeability are hypotheses of the theorems", "pickle and diskcache behave as documented"]
 
     def cases(self, rng: random.Random, tier: str) -> Iterable[dict]:
+        # every dedicated family is visited at least twice per run, whatever the seed; the rest is drawn at random
+        forced = [0.04, 0.11, 0.16, 0.21, 0.245, 0.28, 0.32] * 2
         while True:
-            r = rng.random()
+            r = forced.pop() if forced else rng.random()
             if r < 0.08:
                 # two nodes over ONE function whose output names are the same set in a different order, sharing a cache
                 outs = ["lo", "hi", "mid"][: rng.choice([2, 3])]
@@ -108,6 +110,23 @@ class C09(Prop):
                 yield {"kind": "runs", "program": [{"name": "g0", "nodes": nodes, "bound": []}],
                        "runs": [{"values": [["x", v]], "runner": rng.choice(["sync", "async", "async"])} for v in seq[: rng.randint(3, len(seq))]],
                        "backend": rng.choice(["mem", "mem", "lru4", "disk"])}
+                continue
+            if 0.30 <= r < 0.34:
+                # one cacheable node called, run after run, with DIFFERENT arguments that are containers of the same elements (a dict and its
+                # item list, a set / frozenset / list / tuple of the same members, nested): different arguments, different entries
+                fam = rng.choice([
+                    [{"d": [["a", 1], ["b", 2]]}, {"l": [{"t": ["a", 1]}, {"t": ["b", 2]}]}, {"d": [["b", 2], ["a", 1]]}, {"l": [{"l": ["a", 1]}, {"l": ["b", 2]}]}],
+                    [{"S": [1, 2, 3]}, {"l": [1, 2, 3]}, {"F": [1, 2, 3]}, {"t": [1, 2, 3]}],
+                    [{"d": [["k", {"S": ["x", "y"]}]]}, {"d": [["k", {"l": ["x", "y"]}]]}, {"l": [{"t": ["k", {"l": ["x", "y"]}]}]}],
+                    [{"S": []}, {"l": []}, {"d": []}, {"F": []}, {"t": []}],
+                ])
+                seq = [rng.choice(fam) for _ in range(rng.randint(3, 5))]
+                seq[1] = rng.choice([v for v in fam if v != seq[0]])
+                nodes = [{"name": "lab", "kind": "fn", "params": [["x", None]], "dataOuts": ["label"], "body": {"b": "tag", "t": "lab"}, "cache": True},
+                         {"name": "use", "kind": "fn", "params": [["label", None]], "dataOuts": ["u"], "body": {"b": "tag", "t": "use"}, "cache": rng.random() < 0.5}]
+                yield {"kind": "runs", "program": [{"name": "g0", "nodes": nodes, "bound": []}],
+                       "runs": [{"values": [["x", v]], "runner": rng.choice(["sync", "async"])} for v in seq],
+                       "backend": rng.choice(["mem", "lru4", "disk"])}
                 continue
             if 0.23 <= r < 0.26:
                 # two DIFFERENT definitions without retrievable source whose bytecode differs only in a referenced name
